@@ -9,6 +9,50 @@ TB = ("Trusted: Coq 8.16.1 kernel + vm_compute (no native_compute, no axioms); t
       "the correspondence check (Go harness compiled into the working tree with -overlay, generators, printers, constants translator); ")
 
 CLAIMS = {
+ "C01": dict(
+   text="Theorems: every execution in which each operation takes effect at one instant between invocation and response (the owner-side step under the fragment lock) is "
+        "linearizable w.r.t. the register specification, for any number of clients and interleavings (C01_commit_points_linearize); the linearizability checker that judges "
+        "recorded histories is sound (C01_checker_sound). Executed: 2-5 concurrent clients over 6 entry paths on clusters (N,R) in {(3,2),(3,3),(2,1),(1,1)} with multi-table "
+        "fragments, plus writers racing back-to-back janitor passes; every per-key history is judged by the checker inside Coq. The sequential single-key semantics through "
+        "every path (incl. overwrite-then-delete across tables) is C04/C15's differential.",
+   note=TB + "that the Go fragment lock really makes the owner-side stretches atomic is not proved (runtime): it is what the concurrent histories attack; the checker's search is exhaustive below its fuel (= history length + 2).",
+   ref="DESIGN.md 9 C01"),
+ "C02": dict(
+   text="Theorems over Model/DMap.v: after any operation sequence all copies of a key are identical (C02_copies); any F with |F| < number of distinct holders misses a holder; after the "
+        "loss of F, under any later routing that reaches a surviving holder, a read returns exactly the last acknowledged content (never an older one) and deleted keys stay "
+        "not-found (C02_survives, C02_deleted_stays_deleted). Executed: one real cluster per scenario (N 3..5, R 2..3, read-repair on/off), 1..R-1 members stopped gracefully or "
+        "abruptly (coordinator or random), operations during detection, then every key read from every survivor and a fresh cluster client, then a post-failure workload.",
+   note=TB + "memberlist's failure detector and the coordinator's recomputation are the environment (that the new routing still reaches a surviving holder is C13's territory and is "
+        "validated by execution here); an operation in flight during the failure may or may not take effect.",
+   ref="DESIGN.md 9 C02"),
+ "C03": dict(
+   text="Theorems (Model/Balance.v: owners list = primary + previous owners, moves with the newer-timestamp merge, deletes that walk the previous owners): for every sequence of puts, "
+        "deletes, joins, table moves and prunes the newest copy over the owners list is the last acknowledged entry, reads return it wherever it lives, deletes remove it "
+        "everywhere, moves terminate and at quiescence each live key is stored once on the primary (being proved in Proofs/BalanceProofs.v; until merged the registered obligations "
+        "are the merge law C06_merge_max, C11_transfer and C02_survives). Executed: real clusters grown by 1-4 joins with multi-table fragments, operations placed after the push / "
+        "between single balancer runs / after stabilisation, optional graceful leave; every Get at every point, final white-box placement and scans.",
+   note=TB + "crash of sender or receiver in the middle of a move is not injected (needs a guarded hook); memberlist and the balancer's timing are driven explicitly by the harness.",
+   ref="DESIGN.md 9 C03"),
+ "C07": dict(
+   text="Theorems: atomic commit points imply linearizability w.r.t. the counter/swap specification (C07_commit_points_linearize), checker soundness, and the sum formula (final = "
+        "initial + sum of deltas in any order). Executed: 2-4 concurrent callers through 7 entry points (embedded owner/non-owner/backup, cluster client, raw RESP, pipeline) in "
+        "Incr/Decr, GetPut and mixed modes; closed-form predicates (sum, single chain) and the linearizability checker inside Coq on every history.",
+   note=TB + "the owner-side per-key mutex makes Get;compute;Put atomic (Go runtime), attacked by the concurrent runs; IncrByFloat is only exercised sequentially (float text is an oracle).",
+   ref="DESIGN.md 9 C07"),
+ "C08": dict(
+   text="Theorems over Model/DMap.v: Lock succeeds iff the key is free or its holder's timeout elapsed and otherwise changes nothing; at most one token holds a key; Unlock/Lease with a "
+        "token that is not the holder's fail and change nothing; a timed lock is held exactly until now+timeout through any path, an untimed one until unlocked; checker soundness for "
+        "the lock specification; the known race D23 is proved as a _refuted witness. Executed: scripted token/timeout sequences through 6 paths + 3-6 competing lockers with a "
+        "critical-section occupancy counter and the lock-spec linearizability checker.",
+   note=TB + "D23 (Unlock/Lease not atomic w.r.t. expiry + re-acquisition) is an open known finding; real time is compared with a 40 ms margin; the 10 ms retry timer of tryLock is not modelled.",
+   ref="DESIGN.md 9 C08"),
+ "C10": dict(
+   text="Theorems (Model/LRU.v, victim = oracle constrained to be a key of the fragment): after ANY sequence of Puts a fragment holds at most max(1, MaxKeys/owned) keys and, with "
+        "equally sized entries, at most MaxInuse/owned + one entry of bytes; Puts never fail, the key just written is present; n partitions within their share hold at most "
+        "max(n, MaxKeys) keys; a background pass never removes a key accessed within the idle window and removes a sampled key idle past it. Executed: grid MaxKeys x LRUSamples x "
+        "key streams and MaxInuse on 1- and 3-member clusters with per-partition Stats and key sets after EVERY Put (victims reconstructed and replayed by the model), idle scenario.",
+   note=TB + "'eventually disappears' is the sampler's fairness (oracle); ownership is stable during a scenario.",
+   ref="DESIGN.md 9 C10"),
  "C04": dict(
    text='Theorems over Model/DMap.v (owner-side semantics of every mutating operation with synchronous replication): for EVERY operation sequence, routing, replica count and clock readings, after each operation every backup copy equals the primary copy in value, expiry and timestamp, is absent exactly when the primary copy is absent, and no other member holds a copy (C04_mirror); hence single-copy reads agree. The model is executed against real clusters (N,R) in {(3,2),(3,3),(2,2)} on random sequences through 7 client paths with a white-box dump of all copies after every operation, on every run.',
    note=TB + "stable healthy cluster (all backups reachable; quorum decisions are C05's); write timestamps of acknowledged sequential operations increase; timing-ambiguous cases are discarded and counted.",
